@@ -71,6 +71,7 @@ func (p *packageParse) unpack(data []byte) (msgs []*Message, err error) {
 			return count == 2
 		})
 		if index == len(data)-1 {
+			data = bytes.Clone(data) // 消息不能引用会被下一次Read覆盖的读缓冲区
 			jtMsg := jt808.NewJTMessage()
 			if err := jtMsg.Decode(data); err != nil {
 				return nil, fmt.Errorf("%w [%x]", err, data)
@@ -94,6 +95,7 @@ func (p *packageParse) unpack(data []byte) (msgs []*Message, err error) {
 			break
 		}
 		originalData := p.historyData[:end]
+		originalData = bytes.Clone(originalData) // historyData后续会被截断复用 消息需要自己的一份数据
 		jtMsg := jt808.NewJTMessage()
 		if err := jtMsg.Decode(originalData); err != nil {
 			p.historyData = p.historyData[end:]
